@@ -325,11 +325,79 @@ def t1(ctx):
         check_class(ctx, label, pat, sets, "%s:%d" % (mod, line))
     for c in ROOTING_CONTRACTS:
         verify_contract(ctx, ROOTING_SUITE, c, sentinels=False, replay=dreplay.replay_any)
+    write_glue(ctx)
+
+
+def write_glue_witness():
+    """native witness search: a tree and a tree list through as_string / write(file=) / write(path=) in each schema, options given, and back"""
+    import io
+    import os
+    import tempfile
+    import dendropy
+    tl = dendropy.TreeList.get(data="[&R] ((A:1,B:2)x:1,(C:3,D:4)y:2)r;[&U] (A:1,(B:1,(C:1,D:1):0.5):2);", schema="newick")
+    for obj, name in ((tl[0], "Tree"), (tl, "TreeList")):
+        ns_before = [t.label for t in obj.taxon_namespace]
+        for schema, opts in (("newick", {}), ("newick", {"suppress_edge_lengths": True}), ("nexus", {}), ("nexus", {"suppress_taxa_blocks": True}), ("nexml", {})):
+            outs = {}
+            try:
+                outs["as_string"] = obj.as_string(schema=schema, **opts)
+                s = io.StringIO()
+                obj.write(file=s, schema=schema, **opts)
+                outs["file"] = s.getvalue()
+                fd, p = tempfile.mkstemp(suffix="." + schema)
+                os.close(fd)
+                try:
+                    with open(p, "w") as f:
+                        f.write("stale content that a write to this path must replace\n" * 40)
+                    obj.write(path=p, schema=schema, **opts)
+                    with open(p) as f:
+                        outs["path"] = f.read()
+                finally:
+                    os.unlink(p)
+            except Exception as e:  # noqa
+                return dict(what=name, schema=schema, options=opts, outcome="writing raises %s: %s" % (type(e).__name__, e))
+            if len(set(outs.values())) > 1:
+                return dict(what=name, schema=schema, options=opts, outcome="the three destinations receive different text", texts=dict((k, v[:300]) for k, v in outs.items()))
+            if "suppress_edge_lengths" in opts and ":" in outs["as_string"]:
+                return dict(what=name, schema=schema, options=opts, outcome="the writer option did not reach the writer", text=outs["as_string"][:300])
+            try:
+                back = dendropy.TreeList.get(data=outs["as_string"], schema=schema)
+            except Exception as e:  # noqa
+                return dict(what=name, schema=schema, options=opts, outcome="reading back raises %s: %s" % (type(e).__name__, e), text=outs["as_string"][:300])
+            src = [obj] if name == "Tree" else list(obj)
+            kw = dict(suppress_edge_lengths=bool(opts.get("suppress_edge_lengths")), suppress_rooting=True)
+            if len(back) != len(src) or [t.as_string("newick", **kw) for t in back] != [t.as_string("newick", **kw) for t in src]:
+                return dict(what=name, schema=schema, options=opts, outcome="read back %r" % [t.as_string("newick", **kw).strip() for t in back], text=outs["as_string"][:300])
+            if [t.label for t in obj.taxon_namespace] != ns_before or (name == "Tree" and obj.taxon_namespace is not tl.taxon_namespace):
+                return dict(what=name, schema=schema, options=opts, outcome="writing changed the object's namespace")
+    return None
+
+
+def write_glue(ctx):
+    """the write side of the round trip up to the writer (AST obligations shared with C09; trees: TreeList / Tree writer glue)"""
+    from contracts import C09
+    ctx.assume("C02/T1 write glue: as_string / write(file=) / write(path=) hand the caller's schema and options, untouched, to one writer made for that schema, which is "
+               "given the tree list (a tree: a new list over the tree's own namespace holding exactly that tree) and the caller's destination; open(), io.StringIO and "
+               "dataio.get_writer are ASSUMED to behave as documented; the writers themselves are bounded only")
+    fails = C09.glue_obligations(ctx, parts=("serializable", "trees"))
+    if fails:
+        w = write_glue_witness()
+        for name, target, why in fails:
+            if w is not None:
+                ctx.fail(name, dict(key="writeglue|%s|%s|%s" % (w["what"], w["schema"], sorted(w["options"].items())), function=target, why=why, **w),
+                         detail="%s; native: %s as %s with %r -> %s" % (why, w["what"], w["schema"], w["options"], w["outcome"]), kind="T1")
+            else:
+                ctx.fail(name, dict(key="site:%s" % name, function=target, why=why, native="the sample trees go through every destination and schema and back unchanged"),
+                         detail=why, kind="T1", no_input=True)
 
 
 def replay(ctx, rec):
     import dendropy
     w = rec.get("witness", {})
+    if str(w.get("key", "")).startswith(("writeglue|", "site:Serializable", "site:Tree")):
+        g = write_glue_witness()
+        print(g or "the sample trees go through as_string / file= / path= in every schema and back unchanged")
+        return g is None
     lab = w.get("label")
     if lab is None:
         print("no input recorded for this obligation")
